@@ -103,6 +103,9 @@ def verify_function(reg, qual, prop):
             ctx.obls.append(Obligation("%s/cover:end" % ctx.prefix, len(ctx.hyps), final.pc, FALSE, "cover",
                                        fi.node.lineno))
             for j, hnt in clause_items(spec.hints):
+                if isinstance(hnt, str) and hnt.startswith("use "):
+                    ctx.assume(final, ex.eval_spec(hnt[4:], final))     # instance of a proved library schema
+                    continue
                 cl = ex.eval_spec(hnt, final)
                 ctx.oblige(final, "hint%s" % j, cl, "hint", fi.node.lineno)
                 ctx.assume(final, cl)
